@@ -140,7 +140,8 @@ def verify_replay_fresh(prop, path, signature):
 
 
 def run_check(engine, prop, tier, seed, runs=None, budget_s=None,
-              workers=None, evidence=True, selfcheck=True, quiet=False):
+              workers=None, evidence=True, selfcheck=True, quiet=False,
+              dump_digests=None):
     t0 = time.monotonic()
     plan = engine.plan(prop, tier)
     nruns = int(runs if runs is not None else plan["runs"])
@@ -172,6 +173,8 @@ def run_check(engine, prop, tier, seed, runs=None, budget_s=None,
     for k in sorted(res):
         agg.add(k, res[k])
     t_batch = time.monotonic() - t0
+    if dump_digests:
+        write_json(dump_digests, {str(k): v for k, v in agg.digests.items()})
 
     # ---- determinism self-check (small slice, fresh interpreter, other hash seed)
     sc = {"seeds": 0, "mismatches": 0, "skipped": not selfcheck}
